@@ -117,11 +117,17 @@ func workerMain() {
 		var req request
 		json.Unmarshal(buf, &req)
 		resp := runOne(req.Src, base)
+		if resp.Status != "panic" && resp.Status != "leak" {
+			// did this source leave the process in a state in which harmless programs crash?
+			if msg := canaryAfter(base); msg != "" {
+				resp = response{Status: "corrupted", Msg: msg}
+			}
+		}
 		b, _ := json.Marshal(resp)
 		out.Write(b)
 		out.WriteByte('\n')
 		out.Flush()
-		if resp.Status == "leak" {
+		if resp.Status == "leak" || resp.Status == "corrupted" {
 			return // parent restarts a clean worker
 		}
 	}
@@ -167,6 +173,31 @@ func runOne(src string, base int) (resp response) {
 		}
 	}
 	return resp
+}
+
+// canarySrc is a harmless program over the value kinds of the prelude; in a healthy process it
+// always runs without a Go panic.
+const canarySrc = `im = make(map[int64]string)
+x = map[int64]string{1: "a"}
+y = map[string]int64{}
+z = map[int64]chan map[int64]string{}
+switch im { case im: 1 }
+w = [1, 2] + [3]
+v = 1 + 2
+u = "a" + 1
+t = make(struct{A int64, B string})
+t.A = 3
+[x[1], len(y), v, u, t.A, w[2], (im == im)]`
+
+func canaryAfter(base int) string {
+	r := runOne(canarySrc, base)
+	if r.Status == "panic" {
+		return "after this source ran, a harmless program panics in the same process: " + r.Msg
+	}
+	if r.Status != "ok" {
+		return "after this source ran, a harmless program fails in the same process: " + r.Status + " " + r.Msg
+	}
+	return ""
 }
 
 func firstAnkoFrames(stack string) string {
@@ -293,7 +324,7 @@ func execInWorker1(src string) outcome {
 		}
 		var resp response
 		json.Unmarshal(r.line, &resp)
-		if resp.Status == "leak" {
+		if resp.Status == "leak" || resp.Status == "corrupted" {
 			w.kill()
 			theWorker = nil
 		}
